@@ -9,11 +9,13 @@
 #include "log_rules.h"
 
 #include "unc_tools.h"
+#include "verif_hooks.h"
 
 
 void log_rule2(const char *func, size_t line, const char *rule, Chunk *first, Chunk *second)
 {
    LOG_FUNC_ENTRY();
+   VERIF_HOOK(verif_note_rule(rule));
 
    if (second->IsNot(CT_NEWLINE))
    {
